@@ -32,7 +32,7 @@ C_TMPL = [TC + n for n in ("state_index", "parameter_index", "monitor_index", "m
 ARGS = [PYG + "_rhs_arguments", PYG + "_scheme_arguments", CG + "_rhs_arguments", CG + "_scheme_arguments"]
 
 PROPS = {
-    "C01": dict(functions=EXPR + [B + "rhs"] + SORTED + UNPACK + PY_PRINT + [TP + "method"], lemmas=L.L1 + L.L2 + L.STAB),
+    "C01": dict(functions=EXPR + [B + "rhs"] + SORTED + UNPACK + PY_PRINT + [TP + "method"], lemmas=L.L1 + L.L2 + L.STAB + L.L3[:6]),
     "C02": dict(functions=[CG + "_rhs_arguments", CG + "_scheme_arguments", G + "gotran2c.get_code", B + "rhs", B + "monitor_values",
                            PP + "_print_Float", "gotranx.codegen.c.GotranCCodePrinter._print_Piecewise",
                            "gotranx.codegen.c.GotranCCodePrinter._print_Float", "gotranx.codegen.c.bool_to_int",
@@ -43,7 +43,7 @@ PROPS = {
                            "frame:gotranx.codegen.python.GotranPythonCodePrinter"], lemmas=L.C13L),
     "C04": dict(functions=INDEX + [B + "rhs", B + "monitor_values", B + "scheme"] + SCHEMES + SORTED + ACCESSORS + UNPACK + ARGS
                 + PY_TMPL + C_TMPL + [TJ + "method", T + "states_matrix"], lemmas=L.L1 + L.STAB),
-    "C05": dict(functions=[S + "explicit_euler", S + "get_scheme", B + "scheme", U + "add_schemes"] + UNPACK + SORTED, lemmas=L.L1),
+    "C05": dict(functions=[S + "explicit_euler", S + "get_scheme", B + "scheme", U + "add_schemes"] + UNPACK + SORTED, lemmas=L.L1 + L.STAB + L.L3[6:]),
     "C06": dict(functions=[S + "generalized_rush_larsen", S + "fraction_numerator_is_nonzero", T + "Conditional", S + "get_scheme",
                            B + "scheme", U + "add_schemes"] + SORTED, lemmas=L.STAB + L.C06L),
     "C07": dict(functions=[S + "hybrid_rush_larsen", S + "generalized_rush_larsen", S + "explicit_euler", S + "get_scheme",
